@@ -46,10 +46,30 @@ pub struct Sub {
     pub set: u32,
 }
 
+/// A waitable that is not a subtask (a stream or future end).  Only what the waitable-set built-ins
+/// need lives here; the copy state (idle/copying/done, peer, buffers) lives with the owner of the
+/// handle (unit_host.rs: the unit stream of the inter-task wakeup; chan_host.rs: payload streams and
+/// futures), which inserts/removes the entry and sets `pending`.
+#[derive(Debug, Clone, Default)]
+pub struct End {
+    /// waitable set it is joined to (0 = none)
+    pub set: u32,
+    /// the not-yet-delivered event: (event code, payload)
+    pub pending: Option<(u32, u32)>,
+}
+
 #[derive(Default)]
 pub struct Host {
     pub next: u32,
     pub subs: BTreeMap<u32, Sub>,
+    /// stream / future ends (see `End`)
+    pub ends: BTreeMap<u32, End>,
+    /// called with (handle, event, payload) when the pending event of an `ends` entry is taken for
+    /// delivery (the owner moves its copy state); every owner registers one and ignores foreign handles
+    pub take_hooks: Vec<fn(u32, u32, u32)>,
+    /// called at the start of a `waitable-set.wait(set)` (engines whose task blocks inside the
+    /// built-in — `block_on` — run their host directives here)
+    pub on_wait: Option<fn(u32)>,
     /// live waitable sets
     pub sets: Vec<u32>,
     pub ctx0: usize,
@@ -154,24 +174,53 @@ pub fn advance(k: usize, s: u32) {
 
 /// Take the pending event of waitable `w` for delivery (event code, payload).
 pub fn take_event(w: u32) -> Option<(u32, u32)> {
-    HOST.with(|h| {
+    let (r, hooks) = HOST.with(|h| {
         let mut h = h.borrow_mut();
-        let sub = h.subs.get_mut(&w)?;
-        let p = sub.pending.take()?;
-        if resolved(p) {
-            sub.resolved_delivered = true;
+        if let Some(sub) = h.subs.get_mut(&w) {
+            let Some(p) = sub.pending.take() else { return (None, Vec::new()) };
+            if resolved(p) {
+                sub.resolved_delivered = true;
+            }
+            return (Some((EVENT_SUBTASK, p)), Vec::new());
         }
-        Some((EVENT_SUBTASK, p))
-    })
+        let r = h.ends.get_mut(&w).and_then(|e| e.pending.take());
+        (r, if r.is_some() { h.take_hooks.clone() } else { Vec::new() })
+    });
+    if let Some((e, c)) = r {
+        for f in hooks {
+            f(w, e, c);
+        }
+    }
+    r
 }
 
 pub fn has_event(w: u32) -> bool {
-    HOST.with(|h| h.borrow().subs.get(&w).map(|s| s.pending.is_some()).unwrap_or(false))
+    HOST.with(|h| {
+        let h = h.borrow();
+        match h.subs.get(&w) {
+            Some(s) => s.pending.is_some(),
+            None => h.ends.get(&w).map(|e| e.pending.is_some()).unwrap_or(false),
+        }
+    })
 }
 
 /// members of set `s` that have a pending event, ascending
 pub fn ready_members(s: u32) -> Vec<u32> {
-    HOST.with(|h| h.borrow().subs.iter().filter(|(_, v)| v.set == s && v.pending.is_some()).map(|(k, _)| *k).collect())
+    HOST.with(|h| {
+        let h = h.borrow();
+        let mut v: Vec<u32> = h.subs.iter().filter(|(_, v)| v.set == s && v.pending.is_some()).map(|(k, _)| *k).collect();
+        v.extend(h.ends.iter().filter(|(_, v)| v.set == s && v.pending.is_some()).map(|(k, _)| *k));
+        v.sort();
+        v
+    })
+}
+
+/// the waitable set `w` is joined to (0 = none / unknown handle)
+pub fn set_of(w: u32) -> u32 {
+    HOST.with(|h| {
+        let h = h.borrow();
+        h.subs.get(&w).map(|s| s.set).or(h.ends.get(&w).map(|e| e.set)).unwrap_or(0)
+    })
 }
 
 // ------------------------------------------------------------------ canonical built-ins
@@ -275,7 +324,7 @@ pub unsafe extern "C" fn waitable_set_drop(set: u32) {
         if !h.sets.contains(&set) {
             return Err("set-drop-unknown");
         }
-        if h.subs.values().any(|s| s.set == set) {
+        if h.subs.values().any(|s| s.set == set) || h.ends.values().any(|e| e.set == set) {
             return Err("set-drop-nonempty");
         }
         h.sets.retain(|s| *s != set);
@@ -294,10 +343,14 @@ pub unsafe extern "C" fn waitable_join(waitable: u32, set: u32) {
         if set != 0 && !h.sets.contains(&set) {
             return Err("join-unknown-set");
         }
-        match h.subs.get_mut(&waitable) {
+        if let Some(s) = h.subs.get_mut(&waitable) {
+            s.set = set;
+            return Ok(());
+        }
+        match h.ends.get_mut(&waitable) {
             None => Err("join-unknown-waitable"),
-            Some(s) => {
-                s.set = set;
+            Some(e) => {
+                e.set = set;
                 Ok(())
             }
         }
@@ -330,6 +383,20 @@ fn set_poll(set: u32, what: &str, payload: *mut [u32; 2]) -> u32 {
 
 #[export_name = "[waitable-set-wait]"]
 pub unsafe extern "C" fn waitable_set_wait(set: u32, payload: *mut [u32; 2]) -> u32 {
+    let hook = HOST.with(|h| h.borrow().on_wait);
+    if let Some(f) = hook {
+        f(set);
+        // escape hatch of engines that block inside this built-in: once the host has trapped (deadlocked
+        // or livelocked script) the wait answers EVENT_CANCEL so that `block_on` unwinds instead of spinning
+        if HOST.with(|h| h.borrow().trapped) {
+            unsafe {
+                (*payload)[0] = 0;
+                (*payload)[1] = 0;
+            }
+            ev(&format!("ws.wait({set})={EVENT_CANCEL}:0:0"));
+            return EVENT_CANCEL;
+        }
+    }
     // a blocking wait with nothing ready would block forever in this single-threaded mock
     if ready_members(set).is_empty() {
         trap("wait-would-block-forever");
@@ -432,25 +499,7 @@ pub unsafe extern "C" fn error_context_debug_message(id: u32, ret: *mut RetPtr) 
     ev(&format!("errctx.msg({id})"));
 }
 
-// ---- the internal unit stream of the inter-task-wakeup feature (C23): placeholders that a later
-// builder replaces by a real stream model; they trap so that an accidental use is visible.
-macro_rules! unit_stub {
-    ($name:ident, $sym:literal, ($($a:ident : $t:ty),*) -> $r:ty, $ret:expr) => {
-        #[export_name = $sym]
-        pub unsafe extern "C" fn $name($($a: $t),*) -> $r {
-            $(let _ = $a;)*
-            trap(concat!("unmodelled-builtin:", $sym));
-            $ret
-        }
-    };
-}
-unit_stub!(unit_new, "[stream-new-unit]", () -> u64, 0);
-unit_stub!(unit_write, "[async-lower][stream-write-unit]", (s: u32, p: *const u8, n: usize) -> u32, 0);
-unit_stub!(unit_read, "[async-lower][stream-read-unit]", (s: u32, p: *mut u8, n: usize) -> u32, 0);
-unit_stub!(unit_cancel_read, "[stream-cancel-read-unit]", (s: u32) -> u32, 0);
-unit_stub!(unit_cancel_write, "[stream-cancel-write-unit]", (s: u32) -> u32, 0);
-unit_stub!(unit_drop_readable, "[stream-drop-readable-unit]", (s: u32) -> (), ());
-unit_stub!(unit_drop_writable, "[stream-drop-writable-unit]", (s: u32) -> (), ());
+// The internal unit stream of the inter-task-wakeup feature (C23) is defined in unit_host.rs.
 
 /// `wasip3_task_set`: on wasm this is a weak C symbol (src/wit_bindgen_cabi.c) holding one global
 /// pointer; same here.  Opaque to the host.
